@@ -246,6 +246,18 @@ def oracle(case):
 					bad.append('the attributes username / password of the parsed element are %r, composed from %r' % (attrs, (ut, pt)))
 			except Exception as ex:
 				bad.append('reading username / password of the parsed element raised %s: %s' % (exc_name(ex), ex))
+		# looking at an element (repr(), %r in a log line, str()) does not change it
+		try:
+			el0 = element_cls(name)('Basic', {'username': u, 'password': p})
+			repr(el0), '%r %s' % (el0, el0.params), str(el0.params)
+			if bytes(el0) != value or impl_parse(name, bytes(el0)) != (u, p):
+				bad.append('after repr() the element composes %r, before %r' % (bytes(el0)[:80], value[:80]))
+			pe = element_cls(name).parse(value)
+			repr(pe)
+			if (pe.params['username'], pe.params['password']) != (u, p):
+				bad.append('after repr() the parsed element holds %r / %r' % (pe.params['username'], pe.params['password']))
+		except Exception as ex:
+			bad.append('repr() of an element raised %s' % exc_name(ex))
 		# the credentials handed over as the other octet-string types (bytearray, memoryview): the same field
 		for how, conv in (('bytearray', bytearray), ('memoryview', memoryview)):
 			try:
